@@ -521,6 +521,14 @@ Error String::_op_vformat(ModifyOp op, const char* fmt, va_list ap) noexcept {
 
   char* p = prepare(op, output_size);
   if (ASMJIT_UNLIKELY(!p)) {
+    // The first attempt could have overwritten the data starting at `start_at` (including the null terminator),
+    // so make the string consistent again before reporting the failure.
+    if (op == ModifyOp::kAssign) {
+      clear();
+    }
+    else {
+      data()[start_at] = '\0';
+    }
     return make_error(Error::kOutOfMemory);
   }
 
